@@ -228,6 +228,7 @@ type shaper struct {
 	bound   []string            // parameters of the enclosing anonymous functions (these shadow the context)
 	seen    uint32              // node types seen
 	freeRen bool                // a free reference was renamed
+	digits  int                 // longest number literal (digits of the coefficient)
 	bad     string
 }
 
@@ -324,6 +325,9 @@ func (s *shaper) walk(x excellent.Expression) {
 		s.sb.WriteString(fmt.Sprintf("(text %q)", t.Value.Native()))
 	case *excellent.NumberLiteral:
 		s.seen |= 1 << nNum
+		if n := len(t.Value.Native().Coefficient().String()); n > s.digits {
+			s.digits = n
+		}
 		// the decimal's value, not its scale: 1.50 and 1.5 are the same number in every operation
 		s.sb.WriteString("(num " + t.Value.Native().String() + ")")
 	case *excellent.BooleanLiteral:
@@ -336,6 +340,13 @@ func (s *shaper) walk(x excellent.Expression) {
 		s.bad = fmt.Sprintf("%T", x)
 		s.sb.WriteString("(?)")
 	}
+}
+
+// maxDigits is the longest number literal of the tree.
+func maxDigits(x excellent.Expression) int {
+	s := &shaper{}
+	s.walk(x)
+	return s.digits
 }
 
 func shapeOf(x excellent.Expression, rename func(string) string) (shape string, seen uint32, renamedFree bool) {
@@ -376,6 +387,8 @@ type exprInfo struct {
 	scannedT1 bool      // the scanner saw `x @(e) y` as body, expression e, body
 	hasRefA   bool
 	isPath    bool
+	noEval    bool // contains both an exponentiation and a number of more than 3 digits: not evaluated (see Assumptions)
+	noEvalDif bool // ... and its printed form has a different tree
 }
 
 func parse(e string) (x excellent.Expression, err error, panicked string) {
@@ -578,6 +591,10 @@ func exprStage(e string, x excellent.Expression, info *exprInfo, add func(key, f
 	if p2 != p {
 		add("expr:print-not-fixed-point:"+joinDiff(diffTrees(x, x2)), "prints as %q, which prints as %q", p, p2)
 	}
+	if info.noEval {
+		info.noEvalDif = len(diffTrees(x, x2)) > 0
+		return x2
+	}
 	for ei, env := range theEnvs {
 		for ci, c := range theCtxs {
 			f1, c1, m1 := evalTree(env, c.ctx, x)
@@ -632,6 +649,8 @@ func checkExpr(e string, stages int) (vs []viol, info exprInfo) {
 	expectRenamed, _, hasFreeA := shapeOf(x, renameAZ)
 	info.hasRefA = hasFreeA
 	info.isPath = isPathExpr(e)
+	// x ^ 1111111 takes minutes and gigabytes (C04's subject): such trees are compared, not evaluated
+	info.noEval = nodes&(1<<nExp) != 0 && maxDigits(x) > 3
 
 	var xPrinted excellent.Expression // the tree of the printed form (not modified by anything below)
 	if stages&stageExpr != 0 {
@@ -643,6 +662,9 @@ func checkExpr(e string, stages int) (vs []viol, info exprInfo) {
 	}
 
 	sameEverywhere := func(xa excellent.Expression, renamedCtx bool) (bool, string) {
+		if info.noEval {
+			return true, ""
+		}
 		for ei, env := range theEnvs {
 			for _, c := range theCtxs {
 				cb := c.ctx
@@ -764,7 +786,7 @@ func checkExpr(e string, stages int) (vs []viol, info exprInfo) {
 		}
 	}
 
-	if stages&stageEval != 0 {
+	if stages&stageEval != 0 && !info.noEval {
 		type tpl struct {
 			name, pre, mid, post string
 			n                    int // number of copies of the expression
